@@ -27,6 +27,13 @@ POLL = 1100       # an error class is only judged if it surfaced later than dead
 
 LOOP_CORES = [
     ("while-true", "while (true) {}"),
+    # exponentially many SHORT nested evaluations (each far below any per-interpreter poll interval), bounded depth
+    ("eval-fanout", "var fd = 0; var fcode = 'if (fd < 40) { fd++; fa.forEach(eval); fd--; }'; var fa = [fcode, fcode]; fa.forEach(eval);"),
+    ("function-fanout", "var gd = 0; var gf = new Function('if (gd < 40) { gd++; [gf, gf].forEach(function (g) { new Function(\'gf()\')(); }); gd--; }'); gf();"),
+    ("callback-fanout", "var hd = 0; function hf() { if (hd < 40) { hd++; [1, 2].forEach(hf); [1].map(hf); hd--; } } hf();"),
+    ("getter-fanout", "var jd = 0; var jo = {get g() { if (jd < 40) { jd++; jo.g; jo.g; jd--; } return 1; }}; jo.g;"),
+    ("sort-fanout", "var kd = 0; function kf(a, b) { if (kd < 40) { kd++; [3, 1, 2].sort(kf); kd--; } return a - b; } [2, 1, 3].sort(kf);"),
+    ("replace-fanout", "var ld = 0; function lf(m) { if (ld < 40) { ld++; 'ab'.replace(/./g, lf); ld--; } return m; } 'ab'.replace(/./g, lf);"),
     ("for-ever", "for (;;) ;"),
     ("do-while", "do {} while (1);"),
     ("self-recursion", "function r(n){ return r(n + 1); } r(0);"),
@@ -120,12 +127,34 @@ def finite_driver_programs(ctx):
                         continue
                     src = "var S = '%s'; var R = new RegExp(%s, '%s'); %s" % (subj, places.q(pat), fl, u)
                     out.append(("rx-%s|%s|%s|%s" % (un, pat, fl, subj), src))
+    # constructing a regular expression is script-reachable work too: counted quantifiers with huge bounds over bodies that
+    # compile to nothing / to little must be accepted or refused promptly, through every construction route
+    bodies = ["(?:)", "(?:(?:))", "a", "()", "(?:a|)", "(?=a)", "\\b", "[]", "(?:){2}", "(?:a*)", ".", "(?:(?:){0,9})", "(?:|)", "(?!)", "^", "(?:^|$)"]
+    counts = ["{0,100000}", "{0,1000000}", "{0,4000000000}", "{2,3999999999}", "{1,2147483647}", "{0,99999999999999999999}", "{1000000}", "{4000000000}", "{1000000,}", "{0,65536}?", "{1,}?(?:){0,2147483647}"]
+    routes = [("literal", "var r = eval(%s);"), ("new-RegExp", "var r = new RegExp(%s);"), ("RegExp()", "var r = RegExp(%s, 'g');"), ("match-str", "'aab'.match(%s);"), ("search-str", "'aab'.search(%s);"),
+              ("caught", "try { new RegExp(%s).test('aab'); } catch (e) { }"), ("split", "'aab'.split(new RegExp(%s));")]
+    k = 0
+    for b in bodies:
+        for c in counts:
+            for rn, rt in routes:
+                k += 1
+                if ctx.quick and k % 5 and not (b in ("(?:)", "(?:(?:))") and rn in ("new-RegExp", "literal")):
+                    continue
+                pat = "x" + b + c + "y"
+                arg = places.q("/" + pat + "/") if rn == "literal" else places.q(pat)
+                out.append(("rx-construct-%s|%s|%s" % (rn, b, c), "try { " + (rt % arg) + " } catch (e) { if (!(e instanceof SyntaxError)) { throw e; } }"))
     for i, e in enumerate(EDGE_DRIVERS):
         out.append(("edge|%d" % i, "var S = 'abcabc', A = [3, 1, 2, 1], O = {a: 1, b: 2}; " + e))
     return out
 
 
 EDGE_DRIVERS = [
+    "var pa = {}, pb = {}; try { Object.setPrototypeOf(pa, pb); Object.setPrototypeOf(pb, pa); } catch (e) { } 'x' in pa; pa instanceof Array; pa.nosuch; pb.x = 1; for (var pk in pa) { } Object.keys(pa); JSON.stringify(pa);",
+    "var pc = {}; try { Object.setPrototypeOf(pc, pc); } catch (e) { } pc.nosuch; 'q' in pc; String(pc);",
+    "var pd = {}, pe = Object.create(pd), pf = Object.create(pe); try { Object.setPrototypeOf(pd, pf); } catch (e) { } pf.nosuch; pd instanceof Object;",
+    "function PF() { } var pg = new PF(); try { Object.setPrototypeOf(PF.prototype, pg); } catch (e) { } pg instanceof PF; pg.nosuch;",
+    "var ca = [1]; ca.push(ca); String(ca); ca.join(); ca + ''; [ca] + ''; ca < ca; isNaN(ca);",
+    "var co = {}; co.self = co; try { JSON.stringify(co); } catch (e) { } String(co); Object.keys(co);",
     "S.replaceAll('', '-');", "S.split('');", "S.split('', 2);", "S.indexOf('', 10);", "S.lastIndexOf('');", "S.lastIndexOf('', -5);", "''.padStart(5, '');", "S.padEnd(10, '');",
     "S.padStart(10, 'xy');", "S.repeat(0);", "''.repeat(1000);", "S.replace('', '$&$&');", "S.replace('', function () { return ''; });", "S.includes('', 100);", "S.startsWith('', 100);",
     "S.endsWith('', -1);", "S.substring(NaN, -1);", "S.substr(-100, Infinity);", "S.slice(Infinity, -Infinity);", "S.at(-100);", "S.charAt(1e9);", "S.charCodeAt(-1);", "S.codePointAt(99);",
